@@ -11,6 +11,15 @@ Definition nth_req {A} (num : N) (l : list A) (d : A) : A := nth (N.to_nat num -
 
 (* ops: handler operations per request; xst: ExpectHandler status per request (100 = continue; the
    ContinueHandler says yes iff 100); stop: s.stop reads 1 from the handler of this request on *)
+(* gone: Shutdown closed the connection as idle just as the first byte of this request arrived *)
+Definition mk_env_gone (ops : list (list hop)) (xst : list Z) (stop gone : option N) : env :=
+  {| handler := fun num _ => nth_req num ops [];
+     expect_status := fun num _ => nth_req num xst 100%Z;
+     continue_ok := fun num _ => Z.eqb (nth_req num xst 100%Z) 100%Z;
+     stop_at_close := fun num => match stop with Some k => (k <=? num)%N | None => false end;
+     stop_at_idle := fun num => match stop with Some k => (k <=? num)%N | None => false end;
+     gone_at_start := fun num => match gone with Some k => (k =? num)%N | None => false end |}.
+
 Definition mk_env (ops : list (list hop)) (xst : list Z) (stop : option N) : env :=
   {| handler := fun num _ => nth_req num ops [];
      expect_status := fun num _ => nth_req num xst 100%Z;
@@ -25,6 +34,10 @@ Definition the_framer : framer := inst_framer default_cfg 4096%N (4 * 1024 * 102
 Definition run (en : entry) (ad : admission) (cfg : scfg) (ops : list (list hop)) (xst : list Z) (stop : option N)
            (cs : list bytes) (t : tail) : list event :=
   serve_conn the_framer cfg (mk_env ops xst stop) en ad {| buf := []; chunks := cs; tl := t |}.
+
+Definition run_gone (en : entry) (ad : admission) (cfg : scfg) (ops : list (list hop)) (gone : option N)
+           (cs : list bytes) (t : tail) : list event :=
+  serve_conn the_framer cfg (mk_env_gone ops [] None gone) en ad {| buf := []; chunks := cs; tl := t |}.
 
 (* ---- projections ---- *)
 Definition state_eqb (a b : conn_state) : bool :=
